@@ -2065,7 +2065,8 @@ class Cursor(object):
         try:
             doc = self._compute_results(with_limit_and_skip=True)[self._emitted]
             self._emitted += 1
-            return doc
+            # the cached results stay ours: the caller gets a document of its own
+            return _copy_field(doc, dict)
         except IndexError as err:
             raise StopIteration() from err
 
@@ -2131,7 +2132,7 @@ class Cursor(object):
                         unique.add(helpers.hashdict(value))
                     else:
                         unique.add(value)
-        return [dict(v) if isinstance(v, helpers.hashdict) else v for v in unique]
+        return [_copy_field(v, dict) if isinstance(v, helpers.hashdict) else v for v in unique]
 
     def __getitem__(self, index):
         if isinstance(index, slice):
@@ -2164,7 +2165,7 @@ class Cursor(object):
             raise TypeError("index '%s' cannot be applied to Cursor instances" % index)
         if index < 0:
             raise IndexError('Cursor instances do not support negativeindices')
-        return self._compute_results(with_limit_and_skip=True)[index]
+        return _copy_field(self._compute_results(with_limit_and_skip=True)[index], dict)
 
     def __enter__(self):
         return self
